@@ -374,3 +374,116 @@ func TestConcurrentAssign(t *testing.T) {
 	rounds := concurrentRounds()
 	rapid.Check(t, func(t *rapid.T) { runConcurrent(t, rounds) })
 }
+
+// TestConcurrentAssignRace is the same property; the driver runs it with the race detector in
+// the thorough tier (a data race reported inside lindb's get-or-create paths fails the test).
+func TestConcurrentAssignRace(t *testing.T) {
+	rounds := concurrentRounds()
+	rapid.Check(t, func(t *rapid.T) { runConcurrent(t, rounds) })
+}
+
+// TestConcurrentFlushStress: creators on real goroutines while complete flush cycles run on
+// another goroutine. In production PrepareFlush runs on the worker goroutine but Flush runs on a
+// background goroutine next to the workers (memdb handleFlush), so a get-or-create overlaps with
+// the end of a flush (memory store cleared, snapshot replaced, bucket cache purged). Inputs are
+// fixed, only the schedule varies. Oracle: the answers of all callers form a function, it is
+// injective, and after quiescence every lookup agrees with what the creators were told.
+func TestConcurrentFlushStress(t *testing.T) {
+	iters := 40
+	if os.Getenv("VERIF_TIER") == "thorough" {
+		iters = 400
+	}
+	for iter := 0; iter < iters; iter++ {
+		stressOnce(t, iter)
+	}
+}
+
+func stressOnce(t *testing.T, iter int) {
+	const nIdx, perWorker = 2, 300
+	dir := mustTempDir("c09s-")
+	defer os.RemoveAll(dir)
+	n, err := openNode(dir, nIdx)
+	if err != nil {
+		t.Fatal(err)
+	}
+	defer n.closeRaw()
+	m := newModel(nIdx)
+	var stop atomic.Bool
+	var flushErr error
+	cycles := 0
+	var fwg sync.WaitGroup
+	fwg.Add(1)
+	go func() { // the flush job: metadata, then every shard's index
+		defer fwg.Done()
+		for !stop.Load() {
+			n.meta.PrepareFlush()
+			if flushErr = n.meta.Flush(); flushErr != nil {
+				return
+			}
+			for _, d := range n.idx {
+				d.PrepareFlush()
+				if flushErr = d.Flush(); flushErr != nil {
+					return
+				}
+			}
+			cycles++
+		}
+	}()
+	type answer struct {
+		r   rowSpec
+		out []obs
+	}
+	answers := make([][]answer, 1+nIdx)
+	errs := make([]error, 1+nIdx)
+	barrierRun(1+nIdx, func(g int) {
+		for i := 0; i < perWorker; i++ {
+			j := (i*7 + iter) % perWorker
+			r := rowSpec{NS: "ns", Name: fmt.Sprintf("m%d", j%40),
+				Tags:   []kvPair{{"host", fmt.Sprintf("h%d", j%97)}, {"zone", fmt.Sprintf("z%d", j%7)}},
+				Fields: []string{fmt.Sprintf("f%d", j%5)}}
+			row, err := buildRow(r)
+			if err != nil {
+				errs[g] = err
+				return
+			}
+			var out []obs
+			if g == 0 {
+				err = metaWorkerRow(n, r, row, &out)
+			} else {
+				err = indexWorkerRow(n, g-1, r, row, &out)
+			}
+			if err != nil {
+				errs[g] = err
+				return
+			}
+			answers[g] = append(answers[g], answer{r, out})
+		}
+	})
+	stop.Store(true)
+	fwg.Wait()
+	if flushErr != nil {
+		t.Fatalf("iteration %d: flush failed: %v", iter, flushErr)
+	}
+	for g := range answers {
+		if errs[g] != nil {
+			t.Fatalf("iteration %d: goroutine %d: %v", iter, g, errs[g])
+		}
+		for _, a := range answers[g] {
+			if err := m.observeAll(a.r, a.out); err != nil {
+				t.Fatalf("iteration %d (%d flush cycles ran next to the workers): goroutine %d (%s) row %s: %v", iter, cycles, g, stressRole(g), a.r, err)
+			}
+		}
+	}
+	if err := checkAll(n, m, true); err != nil {
+		t.Fatalf("iteration %d (%d flush cycles ran next to the workers; goroutine 0 = metadata worker, 1..%d = index workers): %v", iter, cycles, nIdx, err)
+	}
+	ev.Case("TestConcurrentFlushStress", fmt.Sprintf("iter-%d", iter), cycles > 0, []string{"iterations"}, nil)
+	ev.Class("TestConcurrentFlushStress", "flush-cycles-next-to-workers", cycles)
+}
+
+func stressRole(g int) string {
+	if g == 0 {
+		return "metadata worker"
+	}
+	return fmt.Sprintf("index worker of shard %d", g-1)
+}
